@@ -115,7 +115,7 @@ def run(ctx: core.Ctx):
     n = 2000 if ctx.quick else 20000
     worst = 0.0
     specials = [0.0, 1.0, 0.5, math.nextafter(0.5, 0), math.nextafter(0.5, 1), math.nextafter(1.0, 0), math.nextafter(0.0, 1), 5e-324, 1e-300]
-    edge = [0.0, 5e-324, 1e-300, 1e-17, 2.0 ** -53, 1e-9, 2.0 ** -10, 0.25, math.nextafter(0.5, 0), 0.5, math.nextafter(0.5, 1), 0.75,
+    edge = [0.0, -0.0, 5e-324, 1e-300, 1e-17, 2.0 ** -53, 1e-9, 2.0 ** -10, 0.25, math.nextafter(0.5, 0), 0.5, math.nextafter(0.5, 1), 0.75,
             1 - 2.0 ** -10, 1 - 2.0 ** -30, 1 - 2.0 ** -52, math.nextafter(1.0, 0), 1.0]
     pairs = [(a, b) for a in edge for b in edge]
     for op in TN + SN:
